@@ -809,6 +809,36 @@ def propagate_new_aliases(tree, table):
     return count
 
 
+def monotone_lines(tree):
+    """After inlining, statements copied from a helper carry the helper's line numbers.  Rules order statements by line, so the
+    numbers are made non-decreasing in program order inside every function (a statement that would go backwards takes the line of
+    its predecessor; sub-expressions follow their statement)."""
+    funcs, _ = function_table(tree)
+
+    def fix(stmts, last):
+        for st in stmts:
+            orig = getattr(st, "lineno", last)
+            if orig < last:
+                delta = last - orig
+                for n in ast.walk(st):
+                    if hasattr(n, "lineno"):
+                        n.lineno += delta
+                    if getattr(n, "end_lineno", None) is not None:
+                        n.end_lineno += delta
+            last = max(last, getattr(st, "lineno", last))
+            for field in ("body", "orelse", "finalbody"):
+                b = getattr(st, field, None)
+                if isinstance(b, list) and b and isinstance(b[0], ast.stmt):
+                    last = fix(b, last)
+            if isinstance(st, ast.Try):
+                for h in st.handlers:
+                    last = fix(h.body, last)
+        return last
+
+    for fn in funcs.values():
+        fix(fn.body, fn.lineno)
+
+
 def normalise(tree):
     pinned = pinned_functions()
     if pinned is None:
@@ -820,6 +850,8 @@ def normalise(tree):
     af = _AttrFold()
     af.visit(tree)
     ast.fix_missing_locations(tree)
+    if inl.inlined:
+        monotone_lines(tree)
     aliases = propagate_new_aliases(tree, pinned_table())
     comps = append_loops_to_comprehensions(tree)
     temps = inline_new_temporaries(tree, pinned_table())
